@@ -7,7 +7,8 @@ assignment the line was generated from (oracle known by construction, type-stric
 
 Space (each part is enumerated completely; quick / thorough):
   A every option kind alone (59 kinds: value mode x type x nullable x short name x default) in 3 / 5 contexts of command names
-    and arguments, 3 / 5 values per option (+ `null`), multi-valued options with up to 2 values (thorough: also 3);
+    and arguments, 3 / 5 values per option (+ `null`; single-valued boolean options: all 8 accepted words), multi-valued
+    options with up to 2 values (thorough: also 3);
   B all 64 ordered pairs of the 8 structural kinds (flag/required/optional/multi x short name) in two contexts, 2 values per
     option (incl. a value starting with '-'), plus every pair involving a typed kind; repeated multi options;
   C every legal argument shape required* optional* [multi | required-multi] with <= 2 / 3 single-valued arguments, all-string or
